@@ -13,6 +13,7 @@ package main
 //   10 (C10, C02) the connection drops exactly while the dispatcher is inside ws.Client.Write; after the reconnection
 //      a further request is queued: the outstanding request must not be written a second time
 //   11 (C16, C02) Stop while a ready token is unconsumed; after Start the first request is written exactly once
+//   13 (C07) 60 concurrent server-side sends (more than the request channel holds) with a slow network write
 //   12 (C16, C01) Stop while a conclusion is still travelling to the callback goroutine; after Start the first callback
 //      receives its own reply
 
@@ -47,6 +48,22 @@ func within(d time.Duration, f func()) bool {
 	}
 }
 
+// waitFor polls cond for up to d.
+func waitFor(d time.Duration, cond func() bool) bool {
+	end := time.Now().Add(d)
+	for time.Now().Before(end) {
+		if cond() {
+			return true
+		}
+		time.Sleep(500 * time.Microsecond)
+	}
+	return cond()
+}
+
+func clientWrote(fake *fakews.Client, id int64) func() bool {
+	return func() bool { return fake.CountWritten(func(d []byte) bool { return callID(d) == id }) > 0 }
+}
+
 // scenario 7
 func gatedBareServer() []int64 {
 	installIDGen()
@@ -72,7 +89,10 @@ func gatedBareServer() []int64 {
 	if err := srv.SendRequest("c1", core16.NewDataTransferRequest("v")); err != nil {
 		return []int64{-2}
 	}
-	time.Sleep(20 * time.Millisecond)
+	if !waitFor(3*time.Second, func() bool { return fake.CountWritten(func(to string, d []byte) bool { return callID(d) == 11 }) > 0 }) {
+		return []int64{-8}
+	}
+	time.Sleep(5 * time.Millisecond)
 	fake.Disconnect("c1") // session ends, request 11 outstanding
 	time.Sleep(20 * time.Millisecond)
 	fake.Connect("c1")
@@ -80,9 +100,14 @@ func gatedBareServer() []int64 {
 	if err := srv.SendRequest("c1", core16.NewDataTransferRequest("v")); err != nil {
 		return []int64{-3}
 	}
-	time.Sleep(20 * time.Millisecond)
+	if !waitFor(3*time.Second, func() bool { return fake.CountWritten(func(to string, d []byte) bool { return callID(d) == 12 }) > 0 }) {
+		return []int64{-8}
+	}
+	time.Sleep(5 * time.Millisecond)
+	_ = fake.Inject("c1", []byte(`[3,"11",{"status":"Accepted"}]`)) // late reply to the old session's request: to be ignored
+	time.Sleep(5 * time.Millisecond)
 	_ = fake.Inject("c1", []byte(`[3,"12",{"status":"Accepted"}]`))
-	time.Sleep(20 * time.Millisecond)
+	waitFor(2*time.Second, func() bool { mu.Lock(); defer mu.Unlock(); return len(got) > 0 })
 	within(2*time.Second, srv.Stop)
 	mu.Lock()
 	defer mu.Unlock()
@@ -158,7 +183,8 @@ func gatedTryQueue() []int64 {
 	case <-time.After(2 * time.Second):
 		return []int64{-8}
 	}
-	time.Sleep(20 * time.Millisecond)
+	waitFor(3*time.Second, func() bool { return fake.CountWritten(func([]byte) bool { return true }) > 0 })
+	time.Sleep(5 * time.Millisecond)
 	// answer whatever was written
 	for _, w := range fake.TakeWritten() {
 		s := string(w)
@@ -168,7 +194,8 @@ func gatedTryQueue() []int64 {
 			_ = fake.Inject([]byte(fmt.Sprintf(`[3,"%s",{"status":"Accepted","data":"forB"}]`, id)))
 		}
 	}
-	time.Sleep(40 * time.Millisecond)
+	waitFor(2*time.Second, func() bool { mu.Lock(); defer mu.Unlock(); return aCalled+bCalled > 0 })
+	time.Sleep(20 * time.Millisecond)
 	within(2*time.Second, cp.Stop)
 	mu.Lock()
 	defer mu.Unlock()
@@ -222,7 +249,7 @@ func gatedResume() []int64 {
 	}
 	// the endpoint must still work
 	ok := within(3*time.Second, func() { _ = cl.SendRequest(core16.NewDataTransferRequest("v2")) })
-	time.Sleep(30 * time.Millisecond)
+	waitFor(3*time.Second, func() bool { return fake.CountWritten(func([]byte) bool { return true }) >= 2 })
 	n := len(fake.TakeWritten())
 	stopped := within(3*time.Second, cl.Stop)
 	if ok && stopped && n >= 2 {
@@ -278,6 +305,9 @@ func gatedDropDuringWrite() []int64 {
 	select {
 	case <-dropped:
 	case <-time.After(2 * time.Second):
+		return []int64{-8}
+	}
+	if !waitFor(3*time.Second, clientWrote(fake, 21)) {
 		return []int64{-8}
 	}
 	time.Sleep(20 * time.Millisecond)
@@ -369,7 +399,10 @@ func gatedStaleReadyToken() []int64 {
 		if err := cl.SendRequest(core16.NewDataTransferRequest("v2")); err != nil {
 			return []int64{-6}
 		}
-		time.Sleep(30 * time.Millisecond)
+		if !waitFor(3*time.Second, clientWrote(fake, 32)) {
+			return []int64{-8}
+		}
+		time.Sleep(40 * time.Millisecond) // a second transmission would follow at once
 		n32 := 0
 		for _, w := range fake.TakeWritten() {
 			if callID(w) == 32 {
@@ -408,17 +441,22 @@ func gatedStaleConclusion() []int64 {
 			entered <- struct{}{}
 			<-release
 		})
-		time.Sleep(10 * time.Millisecond)
+		if !waitFor(3*time.Second, clientWrote(fake, 41)) {
+			return []int64{-8}
+		}
 		setNextID("42")
 		_ = cp.SendRequestAsync(core16.NewDataTransferRequest("v2"), func(r ocpp.Response, e error) {})
-		time.Sleep(10 * time.Millisecond)
+		time.Sleep(5 * time.Millisecond)
 		_ = fake.Inject([]byte(`[3,"41",{"status":"Accepted","data":"r41"}]`))
 		select {
 		case <-entered: // the callback goroutine is held inside callback 41
 		case <-time.After(2 * time.Second):
 			return []int64{-4}
 		}
-		time.Sleep(10 * time.Millisecond)
+		if !waitFor(3*time.Second, clientWrote(fake, 42)) { // 42 is dispatched once 41 has been completed
+			return []int64{-8}
+		}
+		time.Sleep(5 * time.Millisecond)
 		// the reply to 42 is concluded by the OCPP-J layer and handed over: it waits in the channel
 		if !within(2*time.Second, func() { _ = fake.Inject([]byte(`[3,"42",{"status":"Accepted","data":"r42"}]`)) }) {
 			return []int64{-5}
@@ -449,9 +487,13 @@ func gatedStaleConclusion() []int64 {
 			}
 			mu.Unlock()
 		})
-		time.Sleep(20 * time.Millisecond)
+		if !waitFor(3*time.Second, clientWrote(fake, 43)) {
+			return []int64{-8}
+		}
+		time.Sleep(5 * time.Millisecond)
 		within(time.Second, func() { _ = fake.Inject([]byte(`[3,"43",{"status":"Accepted","data":"r43"}]`)) })
-		time.Sleep(30 * time.Millisecond)
+		waitFor(time.Second, func() bool { mu.Lock(); defer mu.Unlock(); return calls > 0 })
+		time.Sleep(20 * time.Millisecond)
 		within(2*time.Second, cp.Stop)
 		mu.Lock()
 		if !(calls == 1 && got == "r43") {
@@ -463,6 +505,88 @@ func gatedStaleConclusion() []int64 {
 		return []int64{1, 0}
 	}
 	return []int64{0, wrong}
+}
+
+// scenario 13 (C07): a burst of server-side sends larger than the capacity of the dispatcher's request channel (20)
+// while the network write is slow: every SendRequest must return and every request must be written.
+func gatedServerBurst() []int64 {
+	installIDGen()
+	fake := fakews.NewServer()
+	fake.OnWrite = func(to string, data []byte) { time.Sleep(15 * time.Millisecond) }
+	disp := ocppj.NewDefaultServerDispatcher(ocppj.NewFIFOQueueMap(0))
+	disp.SetTimeout(time.Hour)
+	srv := ocppj.NewServer(fake, disp, nil, core16.Profile)
+	srv.SetResponseHandler(func(c ws_Channel, r ocpp.Response, id string) {})
+	srv.SetErrorHandler(func(c ws_Channel, e *ocpp.Error, d interface{}) {})
+	srv.SetRequestHandler(func(c ws_Channel, r ocpp.Request, id, action string) {})
+	go srv.Start(0, "/{ws}")
+	if !waitFor(2*time.Second, disp.IsRunning) {
+		return []int64{-2}
+	}
+	const n = 60
+	for i := 0; i < n; i++ {
+		fake.Connect(fmt.Sprintf("c%d", i))
+	}
+	var wg sync.WaitGroup
+	for i := 0; i < n; i++ {
+		wg.Add(1)
+		go func(i int) {
+			defer wg.Done()
+			_ = srv.SendRequest(fmt.Sprintf("c%d", i), core16.NewDataTransferRequest("v"))
+		}(i)
+	}
+	returned := within(6*time.Second, wg.Wait)
+	written := waitFor(8*time.Second, func() bool { return fake.CountWritten(func(string, []byte) bool { return true }) >= n })
+	cnt := fake.CountWritten(func(string, []byte) bool { return true })
+	if !returned {
+		return []int64{-8, int64(cnt)}
+	}
+	within(3*time.Second, srv.Stop)
+	if written {
+		return []int64{1, int64(cnt)}
+	}
+	return []int64{0, int64(cnt)}
+}
+
+// scenario 14 (C10): the application sends a request from inside its disconnect handler: the connection is already
+// down, so the request must be held back until the reconnection.
+func gatedSendFromDisconnectHandler() []int64 {
+	installIDGen()
+	fake := fakews.NewClient()
+	disp := ocppj.NewDefaultClientDispatcher(ocppj.NewFIFOClientQueue(0))
+	disp.SetTimeout(time.Hour)
+	cl := ocppj.NewClient("cp1", fake, disp, nil, core16.Profile)
+	cl.SetResponseHandler(func(r ocpp.Response, id string) {})
+	cl.SetErrorHandler(func(e *ocpp.Error, d interface{}) {})
+	cl.SetRequestHandler(func(r ocpp.Request, id, action string) {})
+	var cancelled int64
+	var mu sync.Mutex
+	cl.SetOnRequestCanceled(func(id string, r ocpp.Request, e *ocpp.Error) { mu.Lock(); cancelled++; mu.Unlock() })
+	cl.SetOnDisconnectedHandler(func(err error) {
+		setNextID("51")
+		_ = cl.SendRequest(core16.NewDataTransferRequest("v1"))
+		time.Sleep(30 * time.Millisecond) // the application goes on with its own clean-up
+	})
+	if err := cl.Start("ws://fake"); err != nil {
+		return []int64{-2}
+	}
+	if !within(3*time.Second, func() { fake.Drop() }) {
+		return []int64{-8}
+	}
+	time.Sleep(40 * time.Millisecond)
+	during := fake.CountWritten(func(d []byte) bool { return true }) // write attempts while disconnected
+	if !within(3*time.Second, func() { fake.Reconnect() }) {
+		return []int64{-8}
+	}
+	waitFor(3*time.Second, clientWrote(fake, 51))
+	after := fake.CountWritten(func(d []byte) bool { return callID(d) == 51 })
+	within(2*time.Second, cl.Stop)
+	mu.Lock()
+	defer mu.Unlock()
+	if during == 0 && after == 1 && cancelled == 0 {
+		return []int64{1, 0}
+	}
+	return []int64{0, int64(during), int64(after), cancelled}
 }
 
 func gatedEval(in []int64) []int64 {
@@ -479,6 +603,10 @@ func gatedEval(in []int64) []int64 {
 		return gatedStaleReadyToken()
 	case 12:
 		return gatedStaleConclusion()
+	case 13:
+		return gatedServerBurst()
+	case 14:
+		return gatedSendFromDisconnectHandler()
 	}
 	return []int64{-1}
 }
